@@ -267,6 +267,16 @@ class NPProxy:
             ).reshape(arr.shape)
         return self._r.isnan(a, **kw)
 
+    def sign(self, a, **kw):
+        if isinstance(a, SymReal):
+            return 1.0 if bool(a > 0) else (-1.0 if bool(a < 0) else 0.0)
+        return self._r.sign(a, **kw)
+
+    def floor(self, a, **kw):
+        if isinstance(a, SymReal):
+            return MATH.floor(a)
+        return self._r.floor(a, **kw)
+
     def isclose(self, a, b, rtol=1e-05, atol=1e-08, **kw):
         if isinstance(a, SymReal) or isinstance(b, SymReal):
             return abs(a - b) <= atol + rtol * abs(b)
